@@ -38,6 +38,7 @@ PLAIN = ["foo", "Bar", "baz_1", "a1", "UPPER", "word", "note", "about", "the", "
          "none", "c", "S", "W"]
 # six digits that are NOT a calendar date: plain text even as the very first word of a body
 FIRST_ODD = ["123456", "999999", "241332", "000000", "2024-02-30", "2023-13-01", "2024-03-32"]
+QUOTED_FIRST = ['"TODO"', "'beta'", '"a1"', "'two words'", '"Zed q_q"']
 LOOKALIKE = ["o", "x", "P5", "P0", "2024-01-01", "2031-12-31", "2024-02-30", "1234", "0930", "240101", "991231", "240101#zz",
              "000229#0A", "240305#abc"]
 SYMBOLS = ["--", "*", "&", "=>", "...", "|", "~", "<", ">", "=", "(", ")", "{x}", "`"]
@@ -142,9 +143,17 @@ def plain_word(draw, lookalike_ok: bool):
 def words(draw, names, n_min=1, n_max=8, first_plain=True, meta_rate=3, keys=None, scope_line=False):
     n = draw(st.integers(n_min, n_max))
     out = []
+    quoted_first = False
     for i in range(n):
-        if i == 0 and first_plain:
+        if i == 0 and first_plain and not scope_line and draw(st.integers(0, 9)) == 0:
+            # a quoted word in first position: it is the first id of the body, so a date / ZID look-alike
+            # behind it is plain text
+            w = W(draw(st.sampled_from(QUOTED_FIRST)))
+            quoted_first = True
+        elif i == 0 and first_plain:
             w = W(draw(st.sampled_from(PLAIN if draw(st.integers(0, 11)) else FIRST_ODD)))
+        elif i == 1 and quoted_first and draw(st.booleans()):
+            w = W(draw(st.sampled_from(LOOKALIKE)))
         elif draw(st.integers(0, 9)) < meta_rate:
             w = draw(meta_word(names, keys, scope_line))
         else:
